@@ -299,10 +299,40 @@ theorem per_user_fifo (single : Bool) (b b' t : List Char) (h : firstCmd single 
         rw [List.append_assoc, List.takeWhile_append_dropWhile]; exact hsplit
       · cases h
 
-/-- arrivals are appended behind everything already buffered -/
-theorem arrivals_append (w : World) (u : Nat) (h : (w.net.get u).rx.isEmpty = false) :
+/-- the full statement "arrivals are appended behind everything already buffered" - FALSE for the code as it is
+    (`Witness.arrivals_append_Full_false`): get_user_data discards a text buffer that leaves less than MAX_TEXT/16
+    room, complete commands that wait for their turns included (open finding C13-typeahead-discard) -/
+def arrivals_append_Full : Prop :=
+  ∀ (w : World) (u : Nat), (w.net.get u).rx.isEmpty = false →
+    ((userIO w u).users.get u).buf = (w.users.get u).buf ++ copyChars (w.users.get u).single (w.net.get u).rx
+
+/-- arrivals are appended behind everything already buffered - as long as the pending text leaves room
+    (`roomShort`: `(MAX_TEXT - len - 1) / 3 < MAX_TEXT / 16`, i.e. len >= 1664 with the constants of the source) -/
+theorem arrivals_append_partial (w : World) (u : Nat) (h : (w.net.get u).rx.isEmpty = false)
+    (hroom : roomShort (w.users.get u).buf.length = false) :
     ((userIO w u).users.get u).buf = (w.users.get u).buf ++ copyChars (w.users.get u).single (w.net.get u).rx := by
-  simp [userIO, h]
+  simp [userIO, h, hroom]
+
+/-- ... and otherwise everything pending is lost: only the new bytes are buffered, and the model raises `overflow` -/
+theorem arrivals_discard (w : World) (u : Nat) (h : (w.net.get u).rx.isEmpty = false)
+    (hroom : roomShort (w.users.get u).buf.length = true) :
+    ((userIO w u).users.get u).buf = copyChars (w.users.get u).single (w.net.get u).rx ∧ (userIO w u).overflow = true := by
+  simp [userIO, h, hroom]
+
+/-- witness: a user with MAX_TEXT buffered bytes (any length from 1664 on, with the constants of the source) receives one
+    more byte -/
+theorem arrivals_append_Full_false : ¬ arrivals_append_Full := by
+  intro h
+  generalize hw : ({ users := [(1, { buf := List.replicate NV.Gen.C12.maxText 'a' })], net := [(1, { rx := ['b'] })] } : World) = w at h
+  have hrx : (w.net.get 1).rx.isEmpty = false := by rw [← hw]; rfl
+  have hbuf : (w.users.get 1).buf = List.replicate NV.Gen.C12.maxText 'a' := by rw [← hw]; rfl
+  have hs : roomShort (w.users.get 1).buf.length = true := by rw [hbuf, List.length_replicate]; decide
+  have h1 := h w 1 hrx
+  rw [(arrivals_discard w 1 hrx hs).1] at h1
+  have := congrArg List.length h1
+  rw [List.length_append, hbuf, List.length_replicate] at this
+  have hpos : 0 < NV.Gen.C12.maxText := by decide
+  omega
 
 example : firstCmd false ("ab".toList ++ [NUL] ++ "cd".toList ++ [NUL]) =
     ("ab".toList ++ [NUL] ++ "cd".toList ++ [NUL], some "ab".toList) := by decide
